@@ -51,6 +51,7 @@ open(dst, "w").write(s)
 overlay[src] = dst
 
 extra = os.path.join("/verif/tools", "overlay_extra.py")
+ns = {}
 if os.path.exists(extra):
     ns = {"overlay": overlay, "OUT": OUT, "goroot": goroot, "modcache": modcache}
     exec(open(extra).read(), ns)
@@ -62,7 +63,14 @@ if MUT:
     names += subprocess.check_output(["git", "-C", MUT, "ls-files", "--others", "--exclude-standard"], text=True).split()
     for n in names:
         if n.endswith(".go") and not n.endswith("_test.go"):
-            overlay[os.path.join("/repo", n)] = os.path.join(MUT, n)
+            src = os.path.join(MUT, n)
+            # a changed file of a package that runs under the sync shim gets the same import rewrite
+            if os.path.dirname(n) in ns.get("SHIM_PKGS", ()) and os.path.exists(src):
+                t = ns["shim_rewrite"](open(src).read(), src)
+                if t is not None:
+                    src = os.path.join(OUT, "mut_vs_" + n.replace("/", "_") + ".txt")
+                    open(src, "w").write(t)
+            overlay[os.path.join("/repo", n)] = src
             print("mutation overlay:", n)
 
 json.dump({"Replace": overlay}, open(os.path.join(OUT, "overlay.json"), "w"), indent=1)
